@@ -18,6 +18,11 @@ Sub-checks
              functions, drawn order), then drawn valid / invalid steps, then invalid -> valid for every function; every
              step is judged by a state-independent oracle (ValueError for an invalid size, exact bits / shape, ranks and
              accuracy for a valid one) and an identical valid call repeated later must give the same result
+    dtype    element types of the cores: TT-tensors / QTT-tensors whose cores are int64 / int32 / int16 / float32 arrays (one
+             type for all cores, or mixed with float64) through core_tt_to_qtt, tt_to_qtt, core_qtt_to_tt, qtt_to_tt; all
+             oracles of `convert` / `merge` against the float64 copy of the values, plus: the result for the typed cores and the
+             result for their float64 copy denote the same tensor (sum of the two bounds) and have the same ranks when nothing
+             may be cut; merging integer QTT-cores is exact (derivation: comment above `prop_dtype`)
 
 Tolerance model of `convert` (derivation)
     core_tt_to_qtt factorises q matrices per core with matrix_svd (eigen-decomposition of B B^T or B^T B).  Each
@@ -68,14 +73,20 @@ RULE = ("index: exhaustive enumeration of all 2^(q*d) multi-indices for every (q
         "enumerates all 2^(q*d) multi-indices in batch, a strided sample in the single spellings, and the invalid sizes "
         "2^q - 1, 2^q + 1, 2^(q+1) - 1, 3*2^(q-1), 3*2^q. history: q 1..4(6), d 2..3, sizes from {2^(q-1), 2^q, 2^(q+1)} and the "
         "non-powers of two in (2^(q-1), 2^(q+2)); 4 functions x 4 argument spellings x 2 data variants per step; "
-        "non-trivial = some invalid step follows a valid step (every case, by construction).")
+        "non-trivial = some invalid step follows a valid step (every case, by construction). dtype: q 1..4(5), d 1..4, q*d <= 10(14), "
+        "ranks 1..4 (QTT side 1..3), element type per core from int64 / int32 / int16 / float32 (all cores alike, or drawn per core "
+        "incl. float64), values small integers -3..3, 0/1, 0..9, -9..9 (exactly representable in every type; integer Gram matrix "
+        "and integer merge cannot overflow by construction) or Gaussian (floating types), accuracy / cap families of convert, "
+        "core-level arguments default / (e) / (e, r); non-trivial = q >= 2 and some integer core.")
 TOLERANCES = ("index maps: exact (compared as Python integers, for every q <= 62). consistency QTT vs qtt_to_tt(QTT): 2*32*(dq+sum r+2)*eps*E(|cores|) elementwise (== for "
               "small-integer cores). accuracy per core: 1.001*(sqrt(q)*e + q*4*S*sqrt(eps)*||G||_F) in regime T (e >= 100x that floor), "
               "1.001*(sqrt(q)*e + q*64*S*eps*||G||_F) in regime L (well-conditioned core, nothing cut), S = n*max(r1,r2) "
               "(see module docstring), tensor: prod(||G_k||+b_k) - prod||G_k|| in Frobenius norm; none when the cap may bind. "
               "history: the same bounds per step; a repeated identical valid call: index maps ==, conversions within the sum of "
               "the two accuracy bounds (no bit-for-bit claim on floats); optima_qtt: returned values vs own dense entry within "
-              "2*K*eps*E(|cores|)")
+              "2*K*eps*E(|cores|). dtype: integer cores = the float64 bounds on the float64 copy; float32 cores = the same formulas with "
+              "eps32 = 2^-23, regime L from sigma_min(unfoldings) >= 32*q*sqrt(S*eps32)*||G||_F (observed error <= 0.006 of the bound); "
+              "typed vs float64 copy: sum of the two bounds; merge of integer-valued cores: == (rounding bound with eps32 / eps otherwise)")
 ASSUMPTIONS = ["TT side d >= 1 is evaluated with the harness' own dense chain; teneva.get_many is only called on tensors with >= 2 cores",
                "q >= 1 (mode size 1 = 2^0 is outside the quantifier)",
                "index maps: 1 <= q <= 62. The maps work on NumPy's default integer (signed 64-bit here): n = 2^q and every index "
@@ -87,6 +98,10 @@ ASSUMPTIONS = ["TT side d >= 1 is evaluated with the harness' own dense chain; t
                "other cases are counted under the label accuracy_not_claimed / cap_may_bind",
                "history: Gaussian cores of O(1) magnitude, ranks <= 3, optima_qtt only with d >= 2; of optima_qtt only the shape of "
                "the result, the index ranges and value == entry at the returned index are asserted (optimality is C15)",
+               "dtype: element types int64, int32, int16 (values small enough that max(r1*n, r2)*max|G|^2 and every partial product of a "
+               "merge fit the type) and float32. bool, int8, uint8 and float16 cores are outside the quantifier: on the unmodified "
+               "library bool cores are multiplied with logical or/and (A @ A.T and tensordot of bool arrays), 8-bit Gram matrices wrap "
+               "around, float16 is rejected by numpy.linalg (TypeError)",
                "NumPy/LAPACK reference arithmetic is correct"]
 
 SQ = math.sqrt(EPS)
@@ -407,8 +422,12 @@ def _deep_bad(got, ref, rows):
 
 # ------------------------------------------------------------------------------------------- accuracy model
 
-def core_model(G, q, e):
-    """-> (regime or None, bound on ||merge(core_tt_to_qtt(G, e)) - G||_F, largest structural rank)."""
+def core_model(G, q, e, eps=EPS):
+    """-> (regime or None, bound on ||merge(core_tt_to_qtt(G, e)) - G||_F, largest structural rank).
+
+    G holds the values of the core in float64; eps is the unit roundoff of the arithmetic the library works in for this
+    core (float64 for float64 and integer cores, float32 for float32 cores, see the `dtype` sub-check)."""
+    G = np.asarray(G, dtype=float)
     r1, n, r2 = G.shape
     nG = fro(G)
     g = {q: min(r1 * n, r2)}
@@ -416,7 +435,7 @@ def core_model(G, q, e):
         g[j] = min(r1 * 2 ** j, 2 * g[j + 1])
     gmax = max(g.values())
     S = n * max(r1, r2)
-    nu = 4.0 * S * SQ * nG
+    nu = 4.0 * S * math.sqrt(eps) * nG
     b = 1.001 * (math.sqrt(q) * e + q * nu)
     if nG == 0.0:
         return "zero", math.sqrt(q) * e, gmax
@@ -427,8 +446,12 @@ def core_model(G, q, e):
         M = np.reshape(G, (r1 * 2 ** j, -1), order='F')     # rows: left rank and the j low bits
         s = np.linalg.svd(M, compute_uv=False)
         smin = min(smin, float(s[g[j] - 1]))
-    if smin >= 100.0 * q * nu and e <= smin / 2:
-        return "L", 1.001 * (math.sqrt(q) * e + q * 64.0 * S * EPS * nG), gmax
+    # float64: the threshold of the module docstring.  float32: 100*q*nu exceeds ||G|| for every core, so the threshold is
+    # taken from the mechanism itself (docstring of the `dtype` section): nothing is cut and nothing is at rounding level
+    # iff every computed eigenvalue sigma^2 - ||dC||, ||dC|| <= 16*S*eps*||G||^2, stays above e^2.
+    thr = 100.0 * q * nu if eps == EPS else 32.0 * q * math.sqrt(S * eps) * nG
+    if smin >= thr and e <= smin / 2:
+        return "L", 1.001 * (math.sqrt(q) * e + q * 64.0 * S * eps * nG), gmax
     return None, None, gmax
 
 
@@ -698,6 +721,268 @@ def prop_merge(case, ctx):
     else:
         vt = DT[tuple(np.asarray(It).T)]
     _close(ctx, vt, DZ[tuple(B.T)], tol[idx], "entry of qtt_to_tt(Z) at ind_qtt_to_tt(B) vs entry of Z at B", ex)
+
+
+# ------------------------------------------------------------------------------------------- element types of the cores
+#
+# A TT-tensor is "a list of 3-dimensional arrays"; nothing in the property restricts the element type of the cores to
+# float64.  The conversions are served correctly by the unmodified library for int64 / int32 / int16 cores (as long as
+# the integer Gram matrix of the first factorisation, entries <= max(r1*n, r2) * max|G|^2, fits into the type: by
+# construction here) and float32 cores; not for bool / int8 / uint8 (ASSUMPTIONS), which are outside the quantifier here.
+#
+# Model.  Integer cores: the first Gram matrix is formed in exact integer arithmetic and handed to eigh as float64, every
+# later step works on float64 factors: the float64 model of the module docstring applies to the float64 copy of the core.
+# float32 cores: every step runs in float32 (Gram matrix, eigh, products), i.e. the same derivation with eps32.  Regime T
+# carries over literally (e >= 100*nu32).  Regime L: a step returns U V = U U^T B (or B U U^T) with U the complete
+# computed eigenvector matrix - the eigenvalues cancel between U*w and (1/w) U^T B row by row - provided no eigenvalue is
+# cut or clamped to zero: computed eigenvalue >= sigma^2 - ||dC||, ||dC|| <= (k/2 + p(m))*eps32*||B||^2 <= 16*S*eps32*||G||^2
+# (k <= S inner dimension of the Gram product, p(m) <= 15*m the eigh backward-error constant).  With
+# sigma_min(every unfolding) >= 32*q*sqrt(S*eps32)*||G|| =: thr this is >= sigma_min^2*(1 - 1/64 - drift) > e^2 for
+# e <= sigma_min/2 (drift of the singular values through the <= q earlier steps: q*64*S*eps32*||G|| <= 2*sqrt(S*eps32)*thr).
+# Step error <= 64*S*eps32*||G||_F as in float64 (observed <= 1*S*eps32).
+#
+# Oracles: everything `convert` asserts (form, ranks between the modes, cap, QTT entry at the bits == entry of
+# qtt_to_tt(QTT), accuracy against the dense tensor of the float64 copy), plus "same result as for the float64 copy":
+# the two QTT-tensors denote the same tensor within the sum of the two accuracy bounds and, when nothing may be cut on
+# either side (regime L, cap cannot bind), have the same ranks.  Merge side: qtt_to_tt / core_qtt_to_tt of integer QTT-cores
+# is exact integer arithmetic (no overflow by construction: abs-majorant of every prefix product fits the narrowest type).
+
+DT_INT = ("int64", "int32", "int16")
+DT_POOL = DT_INT + ("float32",)
+EPS32 = float(np.finfo(np.float32).eps)
+DT_VALUES = ("smallint", "binary", "count", "wide", "gauss", "gauss")
+
+
+def eps_of(dt):
+    return EPS32 if dt == "float32" else EPS
+
+
+@st.composite
+def dtype_lists(draw, m):
+    mode = draw(st.sampled_from(["same", "same", "mixed"]))
+    if mode == "same":
+        return [draw(st.sampled_from(DT_POOL))] * m
+    dts = [draw(st.sampled_from(DT_POOL + ("float64",))) for _ in range(m)]
+    dts[draw(st.integers(0, m - 1))] = draw(st.sampled_from(DT_POOL))
+    return dts
+
+
+@st.composite
+def dtype_cases(draw, tier):
+    sz = conv_sizes(tier)
+    q = draw(st.sampled_from([1] + list(range(2, sz["q_max"] + 1)) * 3))
+    d = draw(st.integers(1, max(1, min(4, sz["qd_max"] // q))))
+    r = [1] + [draw(st.integers(1, 4)) for _ in range(d - 1)] + [1]
+    rz = [1] + [draw(st.integers(1, 3)) for _ in range(q * d - 1)] + [1]
+    return {"q": q, "d": d, "r": r, "dts": draw(dtype_lists(d)), "vfam": draw(st.sampled_from(DT_VALUES)),
+            "rz": rz, "zdts": draw(dtype_lists(q * d)), "zfam": draw(st.sampled_from(("smallint", "binary", "gauss"))),
+            "seed": draw(gen.seeds),
+            "e_mode": draw(st.sampled_from(E_MODES)), "e_u": draw(st.integers(0, 1000)) / 1000.0,
+            "r_mode": draw(st.sampled_from(R_MODES)), "r_k": draw(st.integers(0, 5)),
+            "core_args": draw(st.sampled_from(["default", "e", "e_r"]))}
+
+
+def dtype_values(rng, fam, dt, sh):
+    """float64 array of values that the element type dt holds exactly."""
+    if fam == "gauss" and dt.startswith("float"):
+        G = rng.normal(size=sh)
+        return G.astype(np.float32).astype(float) if dt == "float32" else G
+    lo, hi = {"binary": (0, 2), "count": (0, 10), "wide": (-9, 10)}.get(fam, (-3, 4))
+    return rng.integers(lo, hi, size=sh).astype(float)
+
+
+def typed(G64, dt):
+    G = G64.astype(dt)
+    if not np.array_equal(G.astype(float), G64):
+        raise harness.core.OracleFailure("internal: the element type does not hold the drawn values", {"dtype": dt})
+    return G
+
+
+def is_core_list(Q, m):
+    return isinstance(Q, list) and len(Q) == m and all(isinstance(c, np.ndarray) and c.ndim == 3 and c.dtype.kind in "fiu" for c in Q)
+
+
+def prop_dtype(case, ctx):
+    q, d, r_tt, dts = case["q"], case["d"], case["r"], case["dts"]
+    n = 2 ** q
+    rng = np.random.default_rng(case["seed"])
+    Y64 = [dtype_values(rng, case["vfam"], dts[k], (r_tt[k], n, r_tt[k + 1])) for k in range(d)]
+    Yd = [typed(Y64[k], dts[k]) for k in range(d)]
+    for k in range(d):                                           # the integer Gram matrix of the first step cannot overflow
+        if dts[k] in DT_INT:
+            top = max(r_tt[k] * n, r_tt[k + 1]) * float(np.max(np.abs(Y64[k]))) ** 2
+            ctx.check(top <= np.iinfo(dts[k]).max, "internal: integer Gram matrix may overflow", top=top, dtype=dts[k])
+    F = dense(Y64)
+    norms = [fro(G) for G in Y64]
+    ctx.label(f"q={q}", f"d={d}", "values:" + case["vfam"], "e:" + case["e_mode"], "r:" + case["r_mode"],
+              "cores:" + ("mixed" if len(set(dts)) > 1 else dts[0]), *("core:" + t for t in dts))
+    ctx.nontrivial(q >= 2 and any(t in DT_INT for t in dts))
+
+    e_arg = resolve_e(case, norms)
+    e = 1.E-12 if e_arg is None else e_arg
+    eps_k = [eps_of(t) for t in dts]
+    models = [core_model(Y64[k], q, e, eps_k[k]) for k in range(d)]
+    models64 = [core_model(G, q, e) for G in Y64]
+    gmax = max(mm[2] for mm in models)
+    r_arg = resolve_r(case, gmax)
+    r = 100 if r_arg is None else r_arg
+    cap_free = int(r) >= gmax
+    kw = {}
+    if e_arg is not None:
+        kw["e"] = e_arg
+    if r_arg is not None:
+        kw["r"] = r_arg
+    ctx.label("cap_cannot_bind" if cap_free else "cap_may_bind")
+    where = dict(dtypes=dts, q=q, ranks=r_tt, e=e, r=r)
+
+    # ---- tensor level: the typed tensor and its float64 copy
+    Z = ctx.lib(teneva.tt_to_qtt, [G.copy() for G in Yd], **kw)
+    Z64 = ctx.lib(teneva.tt_to_qtt, [G.copy() for G in Y64], **kw)
+    ctx.check(all(np.array_equal(a, b) and a.dtype == b.dtype for a, b in zip(Yd, [typed(Y64[k], dts[k]) for k in range(d)])),
+              "internal: typed cores changed")
+    rz = check_qtt_form(ctx, Z, q, d, r_tt, r, "tt_to_qtt(cores of dtype %s)" % "/".join(sorted(set(dts))))
+    rz64 = check_qtt_form(ctx, Z64, q, d, r_tt, r, "tt_to_qtt(float64 copy)")
+    eps_z = [EPS32 if c.dtype == np.float32 else EPS for c in Z]
+    eps_case = max(eps_z)
+    T = ctx.lib(teneva.qtt_to_tt, Z, q)
+    why = oracle.wellformed(T, [n] * d, finite=True)
+    ctx.check(why is None, f"qtt_to_tt(tt_to_qtt(Y)): not a well-formed finite TT-tensor of shape [2^q]*d: {why}", **where)
+    ctx.check(ranks_of(T) == r_tt, "qtt_to_tt(tt_to_qtt(Y)) does not have the TT-ranks of Y", got=ranks_of(T), **where)
+    DZ = group(dense(Z), q, d)
+    DZ64 = group(dense(Z64), q, d)
+    AZ = group(dense_abs(Z), q, d)
+    DT = dense(T)
+    tolZ = 2 * K_of(Z, extra=2) * eps_case * AZ
+    _close(ctx, DT, DZ, tolZ, "entry of qtt_to_tt(Z) vs entry of Z at the little-endian bits", **where)
+    I = all_indices(q, d)
+    idx = tuple(I.T)
+    Bt = ctx.lib(teneva.ind_tt_to_qtt, I.copy(), n)
+    ctx.check(isinstance(Bt, np.ndarray) and Bt.shape == (len(I), q * d) and bool(np.all(Bt == own_bits(I, q))), "ind_tt_to_qtt differs from shift/mask bits")
+    vals = np.asarray(ctx.lib(teneva.get_many, Z, Bt), dtype=float)
+    ctx.check(vals.shape == (len(I),), "get_many(QTT): wrong shape", shape=vals.shape)
+    _close(ctx, vals, DZ[idx], tolZ[idx], "get_many(Z, bits(I)) vs own entry of Z at the bits", **where)
+
+    elig = [mm[0] is not None for mm in models]
+    elig64 = [mm[0] is not None for mm in models64]
+    for k in range(d):
+        ctx.label(("regime32:" if dts[k] == "float32" else "regime:") + str(models[k][0]))
+    if cap_free:
+        for k in range(d):
+            if elig[k]:
+                err = fro(np.asarray(T[k], dtype=float) - Y64[k])
+                ctx.check(err <= models[k][1], "core of qtt_to_tt(tt_to_qtt(Y)) differs from the core of Y beyond sqrt(q)*e + q*floor",
+                          k=k, err=err, bound=models[k][1], norm=norms[k], regime=models[k][0], core_dtype=dts[k], **where)
+        if all(elig):
+            ctx.label("accuracy_claimed")
+            bounds = [mm[1] for mm in models]
+            tolT = product_bound(norms, bounds) * (1 + 1e-9) + fro(oracle.tol_dense(Y64)) + fro(tolZ)
+            err = fro(DZ - F)
+            ctx.check(err <= tolT, "tt_to_qtt(Y): entries at the binary expansions differ from the entries of Y beyond the requested accuracy",
+                      err=err, tol=tolT, norm=fro(F), regimes=[mm[0] for mm in models], **where)
+            err = fro(vals - F[idx])
+            ctx.check(err <= tolT + fro(tolZ), "get_many(tt_to_qtt(Y), bits) differs from the entries of Y beyond the requested accuracy",
+                      err=err, tol=tolT, norm=fro(F), **where)
+            err = fro(DT - F)
+            ctx.check(err <= tolT + fro(tolZ), "qtt_to_tt(tt_to_qtt(Y)) does not denote Y within the requested accuracy",
+                      err=err, tol=tolT, norm=fro(F), **where)
+            if all(elig64):
+                tol64 = product_bound(norms, [mm[1] for mm in models64]) * (1 + 1e-9) + fro(oracle.tol_dense(Y64)) + fro(oracle.tol_dense(Z64))
+                err = fro(DZ - DZ64)
+                ctx.check(err <= tolT + tol64, "tt_to_qtt(Y) and tt_to_qtt(float64 copy of Y) denote different tensors",
+                          err=err, tol=tolT + tol64, norm=fro(F), **where)
+                ctx.label("same_as_float64_copy_checked")
+        else:
+            ctx.label("accuracy_not_claimed")
+        if all(mm[0] == "L" for mm in models) and all(mm[0] == "L" for mm in models64):
+            ctx.check(rz == rz64, "tt_to_qtt(Y) and tt_to_qtt(float64 copy of Y) have different ranks although nothing may be cut",
+                      got=rz, float64=rz64, **where)
+            ctx.label("same_ranks_checked")
+
+    # ---- core level, every core: default arguments or (e) / (e, r) positionally
+    for k in range(d):
+        Gd, G64 = Yd[k], Y64[k]
+        if case["core_args"] == "default":
+            args, ec, rc = (), 0.0, 1.E+12
+        elif case["core_args"] == "e":
+            args, ec, rc = (e,), e, 1.E+12
+        else:
+            args, ec, rc = (e, r), e, r
+        what = f"core_tt_to_qtt(core of dtype {dts[k]})"
+        out = []
+        for G, eps, name in ((Gd, eps_k[k], what), (G64, EPS, "core_tt_to_qtt(float64 copy)")):
+            Q = ctx.lib(teneva.core_tt_to_qtt, G.copy(), *args)
+            ctx.check(is_core_list(Q, q) and all(c.shape[1] == 2 and c.dtype.kind == "f" for c in Q), f"{name}: not a list of q floating-point cores with mode size 2",
+                      got=[(getattr(c, "shape", None), str(getattr(c, "dtype", None))) for c in Q] if isinstance(Q, list) else None)
+            ctx.check(Q[0].shape[0] == G.shape[0] and Q[-1].shape[2] == G.shape[2] and all(Q[j].shape[2] == Q[j + 1].shape[0] for j in range(q - 1)),
+                      f"{name}: ranks do not chain from r1 to r2", got=[c.shape for c in Q], core=G.shape)
+            ctx.check(all(np.all(np.isfinite(c)) for c in Q), f"{name}: non-finite entries")
+            ctx.check(all(Q[j].shape[2] <= max(1, int(rc)) for j in range(q - 1)), f"{name}: bond created inside the mode exceeds the rank cap",
+                      got=[c.shape for c in Q], cap=rc)
+            H = ctx.lib(teneva.core_qtt_to_tt, Q)
+            ctx.check(isinstance(H, np.ndarray) and H.shape == G.shape and H.dtype.kind == "f", f"{name}: core_qtt_to_tt of the result is not a floating-point array of the shape of G",
+                      got=getattr(H, "shape", None), ref=G.shape)
+            H = np.asarray(H, dtype=float)
+            reg, b, gm = core_model(G64, q, ec, eps)
+            if reg is None or int(rc) < gm:
+                out.append((H, None, reg, [c.shape for c in Q]))
+                continue
+            err = fro(H - G64)
+            ctx.check(err <= b, f"{name}: core_qtt_to_tt(core_tt_to_qtt(G)) differs from G beyond sqrt(q)*e + q*floor",
+                      err=err, bound=b, e=ec, r=rc, norm=fro(G64), shape=G.shape, regime=reg, k=k)
+            out.append((H, b, reg, [c.shape for c in Q]))
+        (H1, b1, g1, s1), (H2, b2, g2, s2) = out
+        if b1 is not None and b2 is not None:
+            ctx.check(fro(H1 - H2) <= b1 + b2, f"{what}: the merged result differs from the merged result for the float64 copy of the core",
+                      diff=fro(H1 - H2), tol=b1 + b2, norm=fro(G64), k=k, args=args)
+            ctx.label("core_same_as_float64_copy_checked")
+            if g1 == "L" and g2 == "L":
+                ctx.check(s1 == s2, f"{what}: ranks differ from the ranks for the float64 copy although nothing may be cut", got=s1, float64=s2, k=k)
+
+    _dtype_merge(case, ctx, rng)
+
+
+def _dtype_merge(case, ctx, rng):
+    """qtt_to_tt / core_qtt_to_tt on typed QTT-cores against the own dense chain of the float64 copy."""
+    q, d, rz, zdts = case["q"], case["d"], case["rz"], case["zdts"]
+    n = 2 ** q
+    L = q * d
+    Z64 = [dtype_values(rng, case["zfam"], zdts[k], (rz[k], 2, rz[k + 1])) for k in range(L)]
+    Zd = [typed(Z64[k], zdts[k]) for k in range(L)]
+    ctx.label("qtt_cores:" + ("mixed" if len(set(zdts)) > 1 else zdts[0]), "qtt_values:" + case["zfam"])
+    AZ = dense_abs(Z64)
+    integral = all(bool(np.all(G == np.round(G))) for G in Z64)
+    narrow = min([np.iinfo(t).max for t in zdts if t in DT_INT] + [2 ** 24 if "float32" in zdts else 2 ** 52, 2 ** 52])
+    top = 0.0
+    for k in range(d):                                           # abs-majorant of every prefix product inside a mode
+        P = np.abs(Z64[k * q])
+        top = max(top, float(np.max(P)))
+        for c in Z64[k * q + 1:(k + 1) * q]:
+            P = np.tensordot(P, np.abs(c), 1)
+            top = max(top, float(np.max(P)))
+    if any(t in DT_INT for t in zdts):
+        ctx.check(top <= narrow, "internal: integer merge may overflow", top=top, narrow=narrow)
+    ex = integral and top <= narrow and float(np.max(AZ)) < 2.0 ** 52
+    eps = EPS32 if "float32" in zdts else EPS
+    ref = group(dense(Z64), q, d)
+    tol = 2 * K_of(Z64, extra=2) * eps * group(AZ, q, d)
+    ctx.label("merge_exact" if ex else "merge_rounding")
+    T = ctx.lib(teneva.qtt_to_tt, [G.copy() for G in Zd], q)
+    ctx.check(is_core_list(T, d), "qtt_to_tt(typed QTT-cores): not a list of d numeric 3-dimensional cores",
+              got=[(getattr(c, "shape", None), str(getattr(c, "dtype", None))) for c in T] if isinstance(T, list) else type(T).__name__)
+    ctx.check([c.shape for c in T] == [(rz[k * q], n, rz[(k + 1) * q]) for k in range(d)], "qtt_to_tt(typed QTT-cores): shapes are not q_0 x 2^q x q_q",
+              got=[c.shape for c in T], qtt_ranks=rz, q=q)
+    Tf = [np.asarray(c, dtype=float) for c in T]
+    ctx.check(all(np.all(np.isfinite(c)) for c in Tf), "qtt_to_tt(typed QTT-cores): non-finite entries")
+    _close(ctx, dense(Tf), ref, tol, "entry of qtt_to_tt(typed Z) at I vs entry of the float64 copy of Z at the little-endian bits of I", ex, dtypes=zdts)
+    for k in range(d):
+        H = ctx.lib(teneva.core_qtt_to_tt, [G.copy() for G in Zd[k * q:(k + 1) * q]])
+        ctx.check(isinstance(H, np.ndarray) and H.shape == T[k].shape, "core_qtt_to_tt(typed QTT-cores): shape is not q_0 x 2^q x q_q", got=getattr(H, "shape", None))
+        H64 = ctx.lib(teneva.core_qtt_to_tt, [G.copy() for G in Z64[k * q:(k + 1) * q]])
+        Aloc = np.abs(Z64[k * q])
+        for c in Z64[k * q + 1:(k + 1) * q]:
+            Aloc = np.reshape(np.tensordot(Aloc, np.abs(c), 1), (Aloc.shape[0], -1, c.shape[2]), order='F')
+        tl = 2 * 32.0 * (q + sum(c.shape[2] for c in Z64[k * q:(k + 1) * q]) + 2) * eps * Aloc
+        _close(ctx, np.asarray(H, dtype=float), H64, tl, "core_qtt_to_tt(typed QTT-cores) vs core_qtt_to_tt(float64 copy)", ex, k=k, dtypes=zdts[k * q:(k + 1) * q])
 
 
 # ------------------------------------------------------------------------------------------- rejection contract
@@ -1081,4 +1366,5 @@ SUBCHECKS = [
     Sub("walk", prop_walk, enumerate=walk_cases),
     Sub("deep", prop_deep, strategy=deep_cases, quick=120, thorough=1500),
     Sub("history", prop_history, strategy=history_cases, quick=40, thorough=600),
+    Sub("dtype", prop_dtype, strategy=dtype_cases, quick=120, thorough=1500),
 ]
